@@ -7,7 +7,7 @@ from ..parse_streams import gen_cases, decode_case, parse_result, outcome_class,
 from ..runner import Stream
 
 ID = "C01"
-AREAS = ["parse"]
+AREAS = ["parse", "errctx"]
 RULE = ("random command trees (vp/gen_cmd.py: depth <= 2(3), every setting toggled independently, groups, relations, "
         "flag subcommands, external subcommands, hyphen values, terminators, low-index multiples, deliberately "
         "questionable configurations) x argv rendered from invocations with 0-2 mutations (delete/duplicate/garble/"
@@ -82,6 +82,63 @@ def nontrivial(case, impl):
 
 def project(r):
     return outcome_class(r)
+
+
+# ---------------------------------------------------------------- stream errctx: the error value behind "can be rendered"
+SUGGESTION_KINDS = {"SuggestedValue", "SuggestedArg", "SuggestedSubcommand", "SuggestedCommand", "Suggested"}
+UNKNOWN_TOKEN = {"UnknownArgument", "InvalidSubcommand", "UnknownArgument|InvalidSubcommand"}
+
+
+def split_errctx(r):
+    base, _, extra = (r or "").partition(" ;; ")
+    return base, extra
+
+
+def canon_alt(kindclass, alt):
+    """one `msg=.. ctx=.. rich=..` group -> canonical text.  Outside the comparison: the suggestion kinds (they depend on
+    strsim::jaro, which the parser model does not compute); the variant of PriorArg's value (None / String / Strings by
+    the number of conflicting arguments, which the model's error does not carry); and, for the two kind classes in which
+    one kind is built by several constructors the model cannot tell apart (ArgumentConflict: argument_conflict /
+    subcommand_conflict; the unknown-token triage), whether the subject is stored as InvalidArg or InvalidSubcommand."""
+    f = dict(x.split("=", 1) for x in alt.split(" ") if "=" in x)
+    items = []
+    for it in [x for x in f.get("ctx", "").split(",") if x]:
+        k, _, sh = it.partition(":")
+        if k in SUGGESTION_KINDS:
+            continue
+        if k == "PriorArg":
+            sh = "*"
+        if kindclass in ("unknown-token", "ArgumentConflict") and k in ("InvalidArg", "InvalidSubcommand"):
+            k = "Subject"
+        items.append(k + ":" + sh)
+    return "msg=%s ctx=%s rich=%s" % (f.get("msg"), ",".join(items), f.get("rich"))
+
+
+def project_errctx(r):
+    base, extra = split_errctx(r)
+    cls = outcome_class(base)
+    if not extra:
+        return cls
+    kind = parse_result(base).get("ekind", "?")
+    kindclass = "unknown-token" if kind in UNKNOWN_TOKEN else kind
+    alts = sorted({canon_alt(kindclass, a) for a in extra.split(" / ")})
+    if len(alts) != 1:
+        return "%s %s AMBIGUOUS %s" % (cls, kindclass, " / ".join(alts))
+    return "%s %s %s" % (cls, kindclass, alts[0])
+
+
+def oracle_errctx(case, impl):
+    base, extra = split_errctx(impl)
+    r = oracle(case, base)
+    if r:
+        return r
+    if "msg=unreadable" in extra:
+        return "unexpected harness result: %s" % extra[:200]
+    return None
+
+
+def nontrivial_errctx(case, impl):
+    return bool(impl) and " ;; " in impl
 
 
 def boundary_cases(rng, n, prof_kw=None):
@@ -165,8 +222,16 @@ def streams(tier, rng):
     ign = gen_cases(rng, n_ign, {"ignore_errors": 1.0, "invalid": 0.0}, p_mutate=0.7, safe_p=0.3)
     mk = lambda name, cases: Stream(name, cases, oracle=oracle, area="parse", project=project,  # noqa: E731
                                     nontrivial=nontrivial, describe=describe(cases, name))
+    # the error value: same generators, mutation-heavy so that most lines end in an error
+    n_err = 30000 if big else 3000
+    errc = (gen_cases(rng, n_err // 2, {"depth": 3} if big else None, p_mutate=0.8, safe_p=0.2, mode="errctx")
+            + gen_cases(rng, n_err // 2, {"hyphen": 0.3, "flag_subs": 0.4, "settings": 0.25, "require_equals": 0.4,
+                                          "terminators": 0.3, "groups": 0.6, "relations": 0.5, "infer": 0.4,
+                                          "external": 0.2}, p_mutate=0.8, safe_p=0.2, mode="errctx"))
+    errctx = Stream("errctx", errc, oracle=oracle_errctx, area="errctx", project=project_errctx,
+                    nontrivial=nontrivial_errctx, describe=describe(errc, "errctx"))
     return [mk("parse-random", rand), mk("parse-adversarial", adversarial), mk("parse-boundary", bound),
-            mk("parse-ignore-errors", ign)]
+            mk("parse-ignore-errors", ign), errctx]
 
 
 def classify_known(stream, case, impl, failure):
